@@ -84,6 +84,13 @@ func (r *round1) Update(msg model.ConsensusMessage) *Error {
 		return nil
 	}
 
+	// the share must be over this block's hash: the data hash arrives from the wire independently of
+	// cvm.BlockHash, and honest verifiers always sign bh.Hash (round0.normalPieceVerify)
+	if si.GetDataHash() != bh.Hash {
+		r.logger.Errorf("sign data hash is not the block hash, id: %s. hash: %s, height: %d, data hash: %s", si.GetSignerID().GetHexString(), bh.Hash.String(), bh.Height, si.GetDataHash().String())
+		return nil
+	}
+
 	// check data
 	if !si.VerifySign(pk) {
 		r.logger.Errorf("fail to verify sign, id: %s. hash: %s, height: %d", si.GetSignerID().GetHexString(), cvm.BlockHash.String(), bh.Height)
